@@ -5,7 +5,8 @@ V = os.path.dirname(os.path.dirname(os.path.abspath(__file__)))
 sys.path.insert(0, V)
 os.environ['ORV_NO_INLINE'] = '1'
 from orv import facts
-from orv.normalize import local_keys
+from orv.normalize import local_keys, opaque_tokens
+opq = {}
 ids = set()
 locs = {}
 for c in list(facts.CONFIGS):
@@ -13,6 +14,16 @@ for c in list(facts.CONFIGS):
         if (f.d.get('loc') or '').startswith(facts.REPO.rstrip('/') + '/'):
             ids.add(f.id)
             if f.d.get('body'):
+                toks = opaque_tokens(f.d['body'])
+                if toks:
+                    o = list(opq.get(f.id, []))
+                    left = list(o)
+                    for t in toks:
+                        if t in left:
+                            left.remove(t)
+                        else:
+                            o.append(t)
+                    opq[f.id] = sorted(o)
                 ks = local_keys(f.d['body'])
                 if ks:
                     # multiset union over the configurations
@@ -28,5 +39,6 @@ p = os.path.join(V, 'orv', 'inventory.json')
 old = json.load(open(p))
 old['functions'] = sorted(ids)
 old['locals'] = {k: [list(x) for x in locs[k]] for k in sorted(locs)}
+old['opaque'] = {k: opq[k] for k in sorted(opq)}
 json.dump(old, open(p, 'w'), indent=0)
 print(len(ids), 'functions', sum(len(v) for v in locs.values()), 'locals')
